@@ -28,7 +28,7 @@ def run(rep):
     if any(x["cands"] for x in res if x["name"].startswith("adj_for_ext_lat")):
         from . import policyprop as pp
         pp.confirm_kadj(rep, res, None)
-    if any((x["cands"] or x["inconclusive"]) for x in res if x.get("fn") == "imsaak"):
+    if any((x["cands"] or x["inconclusive"]) for x in res if x.get("fn") == "imsaak") or rep.tier == "thorough":
         from . import policyprop as pp
         if not pp.imsaak_grid(rep) and any(x["cands"] for x in res if x.get("fn") == "imsaak"):
             rep.inconclusive.append("get_imsaak counterexample not reproduced through the public API")
